@@ -23,7 +23,7 @@ CLAIMED = {
  "C01": E1c("5/C01", "exactly-once multiset + FIFO between ordered operations + slot ownership marks + happens-before check on payload + sequential try_ model + sequential epilogue (clear/swap/reserve)",
    "Trusts the dsched runtime (scheduler, view model, vector clocks) and the flag pairing rules taken from bounded_queue.h; bounded programs (<=8 threads, <=16 elements per case in quick, 32 in thorough)."),
  "C02": E1c("5/C02", "no deadlock / livelock for balanced programs + virtual-time deadline bound for timed pops",
-   "Trusts the futex model (wait = SC fence + compare + sleep atomically; wake = SC fence + wake) and the fairness rules of the scheduler; liveness is judged only for programs that are balanced by construction.",
+   "Trusts the futex model (wait = SC fence + compare + sleep atomically, with injected EINTR / spurious returns; wake = SC fence + wake), the multi-copy-atomic reading of mixed-size accesses behind a seq_cst fence, and the fairness rules of the scheduler; liveness is judged only for programs that are balanced by construction.",
    "Liveness is attacked by owning the scheduler: a state with no runnable thread and no timer is a lost wake-up; stale reads make a missing seq_cst fence observable. "),
  "C03": E1c("5/C03", "one winner per key, same element address for every caller, visibility after a returned insertion (real-time in SC mode, happens-before in weak mode), fully constructed elements (Tracked payload), full fixed table keeps its arguments, quiescent size/iteration",
    "Generated colliding hash (few start groups and 7-bit tags); byte-wise control loads (ABSL_HAVE_THREAD_SANITIZER path) instead of the SIMD group load, which the ASan target C18 exercises."),
@@ -38,7 +38,7 @@ CLAIMED = {
  "C08": E1c("5/C08", "every get() returns the set value, callbacks exactly once and never before the value, then-chains carry f(v), wait_for true => value / false => virtual time elapsed, latch ready exactly at zero",
    "All timing is virtual; INT64_MAX timeouts excluded (signed overflow in wait_for_slow, noted in DESIGN); both assert-enabled and NDEBUG builds are run."),
  "C09": E1c("5/C09", "a reader inside a region never dereferences a node that was reclaimed after low_water_mark() passed its tick (poisoning + Tracked), released/unlocked accessors never hold the mark back, nesting and hand-over between threads",
-   "One Epoch style (thread-local or Accessor) per case as documented; harness-level shared pointer uses the orders the Epoch tests use."),
+   "One style (thread-local or Accessor) per Epoch instance as documented; a third of the cases use two independent Epoch instances whose regions nest in either order; harness-level shared pointer uses the orders the Epoch tests use."),
  "C10": E1c("5/C10", "every reclaimer exactly once, never while a region that was open at retire time is still open, not later than the return of stop()/destructor, retire blocks on a full queue without loss",
    "Retirers hold no region; every retire() has returned before stop() is called."),
  "C11": E2c("5/C11", "predicted size == bytes produced for every output presentation, parse(serialize(v)) == v for every input presentation, struct <-> protobuf agreement for documented-compatible kinds, hostile bytes: termination without sanitizer report and success => serialize/parse fixpoint",
